@@ -243,6 +243,22 @@ def immutable_views(r, l, w):
         if va != rv:
             diff = sorted(k for k in va if va[k] != rv[k])
             r.violation(f"built-views:{cls.__name__}:{','.join(diff)}", {"pairs": list(l), "cls": cls.__name__}, f"{cls.__name__}({l}) views {diff} differ: {[va[k] for k in diff]} vs {[rv[k] for k in diff]}")
+        # the same pairs handed over in other shapes, among them iterables that can be read only once
+        shapes = {"tuple": lambda: tuple(l), "generator": lambda: (p_ for p_ in l), "iterator": lambda: iter(list(l)), "zip": lambda: zip([k for k, _ in l], [v for _, v in l]),
+                  "map": lambda: map(tuple, [list(p_) for p_ in l]), "another-mapping": lambda: MultiMapping(list(l)), "mutable-mapping": lambda: MutableMultiMapping(list(l))}
+        if len({k for k, _ in l}) == len(l):
+            shapes["dict"] = lambda: dict(l)
+            shapes["dict-items"] = lambda: dict(l).items()
+        for sname, mk in shapes.items():
+            r.count("evaluations")
+            try:
+                vs = views(cls(mk()))
+            except Exception as e:  # noqa
+                r.violation(f"construct:{cls.__name__}:{sname}:{type(e).__name__}", {"pairs": list(l), "cls": cls.__name__, "shape": sname}, f"{cls.__name__}(<{sname} of {l}>) raised {e!r}")
+                continue
+            if vs != rv:
+                diff = sorted(k for k in vs if vs[k] != rv[k])
+                r.violation(f"built-views:{cls.__name__}:{sname}", {"pairs": list(l), "cls": cls.__name__, "shape": sname}, f"{cls.__name__}(<{sname} of {l}>) views {diff} differ: {[vs[k] for k in diff]} vs {[rv[k] for k in diff]}")
         # copy-construction and equality
         try:
             same = cls(cls(list(l))) == cls(list(l)) and cls(list(l)) == cls(list(reversed(l))) and not (cls(list(l)) == cls(list(l) + [("q", "q")]))
